@@ -96,11 +96,13 @@ def parse_match(text):
         )
 
     restrictions = []
+    globbed_slot = False
     if "::" in text:
         text, repo_id = text.rsplit("::", 1)
         restrictions.append(restricts.RepositoryDep(repo_id))
     if ":" in text:
         text, slot = text.rsplit(":", 1)
+        globbed_slot = "*" in slot
         slot, _sep, subslot = slot.partition("/")
         if slot:
             if "*" in slot:
@@ -152,12 +154,18 @@ def parse_match(text):
         try:
             return atom.atom(orig_text)
         except errors.MalformedAtom as e:
-            if "*" not in text:
+            if "*" in text:
+                # support globbed targets with version restrictions
+                return packages.AndRestriction(
+                    *restrictions, *parse_globbed_version(text, orig_text)
+                )
+            if not globbed_slot:
                 raise ParseError(str(e)) from e
-            # support globbed targets with version restrictions
-            return packages.AndRestriction(
-                *restrictions, *parse_globbed_version(text, orig_text)
-            )
+        # slot globs are no atom syntax, what is left of the text can still be an atom
+        try:
+            return packages.AndRestriction(*restrictions, atom.atom(text))
+        except errors.MalformedAtom as e:
+            raise ParseError(str(e)) from e
 
     r = list(map(convert_glob, tsplit))
     if not r[0] and not r[1]:
